@@ -1,4 +1,5 @@
 import RegalModel.Lemmas.Merge
+import RegalModel.Lemmas.Directive
 import Std.Data.String.ToNat
 /-!
 # C06 — Inline ignore directives suppress exactly the named rules, same or next line
@@ -148,3 +149,62 @@ example : ignored { category := "c", title := "t", level := "error", file := [],
     (directivesOfComments [(5, ["tt", "x"])]) = false := by decide
 
 end RegalModel.Kernel
+
+namespace RegalModel.Directive
+open List
+
+/-- **names_spelling**: however a directive is spelled — any Go-whitespace before `regal ignore:`, any whitespace
+(`\s`) before and after every name and comma — the parser yields exactly the listed names, in order. For every
+non-empty list of names (non-empty, free of whitespace and commas) and all whitespace runs. -/
+theorem names_spelling (lead : Str) (items : List (Str × Str × Str))
+    (hl : ∀ c ∈ lead, isGoSpace c = true) (hne : items ≠ [])
+    (h : ∀ it ∈ items, CleanName it.2.1 ∧ AllWs it.1 ∧ AllWs it.2.2) :
+    names (lead ++ marker ++ spaced items) = some (items.map (·.2.1)) := by
+  obtain ⟨core, x, tail, he, hx, ht⟩ := spaced_end items hne h
+  have hm : marker = 'r' :: "egal ignore:".toList := by decide
+  -- left trim
+  have h1 : (lead ++ marker ++ spaced items).dropWhile isGoSpace = marker ++ spaced items := by
+    rw [List.append_assoc, hm]
+    exact dropWhile_prefix isGoSpace lead 'r' _ hl (by decide)
+  -- right trim
+  have h2 : trimSpace (lead ++ marker ++ spaced items) = marker ++ (core ++ [x]) := by
+    unfold trimSpace
+    rw [h1, he]
+    have : marker ++ (core ++ [x] ++ tail) = ((marker ++ core) ++ [x]) ++ tail := by simp
+    rw [this, trimRight_spec (marker ++ core) tail x hx (fun c hc => reWs_goSpace c (ht c hc))]
+    simp
+  unfold names
+  simp only [h2]
+  rw [findSub_prefix marker _ (by decide)]
+  simp only [Option.map_some, Nat.zero_add]
+  have hd : (marker ++ (core ++ [x])).drop 13 = core ++ [x] := by
+    have : marker.length = 13 := by decide
+    rw [← this, List.drop_left]
+  rw [hd]
+  have hs : stripWs (core ++ [x]) = stripWs (spaced items) := by
+    rw [he, stripWs_append (core ++ [x]) tail, stripWs_ws tail ht, List.append_nil]
+  rw [hs, stripWs_spaced items h]
+  rw [splitOn_joined _ (by simpa using hne)]
+  intro n hn c hc
+  simp only [List.mem_map] at hn
+  obtain ⟨it, hit, rfl⟩ := hn
+  exact ((h it hit).1.2 c hc).2
+
+/-- **names_rule_iff_listed**: a directive names a rule exactly when the rule's title is one of the listed names —
+a prefix of a name, or another rule's name, names nothing else. -/
+theorem names_rule_iff_listed (lead : Str) (items : List (Str × Str × Str)) (title : Str)
+    (hl : ∀ c ∈ lead, isGoSpace c = true) (hne : items ≠ [])
+    (h : ∀ it ∈ items, CleanName it.2.1 ∧ AllWs it.1 ∧ AllWs it.2.2) :
+    namesRule (lead ++ marker ++ spaced items) title = true ↔ title ∈ items.map (·.2.1) := by
+  unfold namesRule
+  rw [names_spelling lead items hl hne h]
+  simp
+
+/-- a comment without the marker is no directive -/
+example : names " just a comment".toList = none := by decide
+/-- non-vacuity: "  regal ignore: a ,b" lists a and b; the prefix "li" of "line-length" is not named -/
+example : names (" ".toList ++ marker ++ spaced [(" ".toList, "a".toList, " ".toList), ([], "b".toList, [])]) =
+    some ["a".toList, "b".toList] := by decide
+example : namesRule " regal ignore:line-length".toList "li".toList = false := by decide
+
+end RegalModel.Directive
